@@ -313,6 +313,11 @@ fn waker_scenario(prop: &str, bytes: &[u8], trace: bool) {
             new_wakers.push((h, w));
         }
     }
+    // quiescence: every worker has finished (so every wake() has returned) and every poll-wake
+    // was answered; the wakers main still holds are alive, so nothing but a poll_wake() made in
+    // response can have run their handlers so far
+    let quiescent_at = tick();
+    let alive_at_quiescence: Vec<usize> = main_refs.iter().enumerate().filter(|(_, m)| m.is_some()).map(|(w, _)| w).collect();
     let mut recs: Vec<WRec> = Vec::new();
     for h in handles {
         recs.extend(h.join().unwrap());
@@ -365,6 +370,19 @@ fn waker_scenario(prop: &str, bytes: &[u8], trace: bool) {
             }
         }
     }
+    // C11, wakers still alive at quiescence: the handler ran in response to the wake itself, not
+    // only as the deleted=true call of the final clean-up (which can ride on another bitmap's drop signal)
+    let mut served_alive = false;
+    for r in recs.iter().filter(|r| r.kind == 0 && r.w < 1000 && alive_at_quiescence.contains(&r.w)) {
+        let hid = hid_of(r.w);
+        served_alive = true;
+        if !log.iter().any(|e| e.0 == hid && !e.1 && e.2 > r.begin && e.2 < quiescent_at) {
+            violation = Some(format!(
+                "wake() on waker#{} began at clock {} and returned, every poll-wake was answered and the Waker is still alive at clock {}, but its handler (id {}) was not run in between",
+                r.w, r.begin, quiescent_at, hid
+            ));
+        }
+    }
     if prop == "C12" {
         // every handler ever registered, fillers included (their Wakers are all dropped by the end;
         // this covers the reserved first slot of each further bitmap)
@@ -403,6 +421,12 @@ fn waker_scenario(prop: &str, bytes: &[u8], trace: bool) {
     }
     if !new_hids.is_empty() {
         classes.push("slot-reused-by-new-waker");
+    }
+    if served_alive {
+        classes.push("wake-on-waker-alive-at-quiescence");
+        if placement == 2 && recs.iter().any(|r| r.kind == 0 && r.w >= 1 && r.w < 1000 && alive_at_quiescence.contains(&r.w)) {
+            classes.push("wake-on-live-waker-of-a-further-bitmap");
+        }
     }
     let _ = nfill;
     set_outcome(Outcome {
@@ -459,6 +483,9 @@ fn channel_scenario(bytes: &[u8], trace: bool) {
     // drop the guard from inside the handler of another Waker (created first, so it runs first
     // in a poll-wake batch): the channel's own handler may then still be due in that batch
     let guard_via_handler = !guard_first && guard_after != 0 && c.chance(80);
+    // a burst sent from the main thread itself before anything is collected: it all accumulates
+    // behind one wake-up (sender id `nsend`)
+    let burst: usize = if c.chance(12) { [5, 70, 257, 300, 1025][c.pick(5)] } else { 0 };
 
     let now = Instant::now();
     let mut stakker = Stakker::new(now);
@@ -523,6 +550,12 @@ fn channel_scenario(bytes: &[u8], trace: bool) {
             (sends, closed)
         }));
     }
+    let mut burst_sends: Vec<SendRec> = Vec::new();
+    for seq in 0..burst {
+        let b = tick();
+        let ok = chan.send((nsend, seq));
+        burst_sends.push((nsend, seq, ok, b, tick()));
+    }
     drop(chan);
     let mut g_begin: Option<usize> = None;
     let mut g_end: Option<usize> = None;
@@ -557,7 +590,7 @@ fn channel_scenario(bytes: &[u8], trace: bool) {
             }
         }
     }
-    let mut sends: Vec<SendRec> = Vec::new();
+    let mut sends: Vec<SendRec> = burst_sends;
     let mut closed = Vec::new();
     for h in handles {
         let (a, b) = h.join().unwrap();
@@ -587,26 +620,33 @@ fn channel_scenario(bytes: &[u8], trace: bool) {
     let mut violation: Option<String> = None;
     if trace {
         for r in &sends {
-            tr.push(format!("sender {} send(#{}) -> {} (clock {}..{})", r.0, r.1, r.2, r.3, r.4));
+            if r.0 == nsend && r.1 >= 2 && r.1 + 2 < burst {
+                continue; // the middle of the main thread's burst
+            }
+            tr.push(format!("sender {}{} send(#{}) -> {} (clock {}..{})", r.0, if r.0 == nsend { " (main thread, burst)" } else { "" }, r.1, r.2, r.3, r.4));
         }
         for r in &closed {
             tr.push(format!("sender {} is_closed() -> {} (clock {})", r.0, r.1, r.2));
         }
         tr.push(format!("guard dropped at clock {:?}..{:?}", g_begin, g_end));
         for r in &received {
+            if (r.0).0 == nsend && (r.0).1 >= 2 && (r.0).1 + 2 < burst {
+                continue;
+            }
             tr.push(format!("forwarded {:?} at clock {}", r.0, r.1));
         }
     }
-    for (i, (m, _)) in received.iter().enumerate() {
-        if received[..i].iter().any(|x| x.0 == *m) {
+    let accepted: std::collections::HashSet<(usize, usize)> = sends.iter().filter(|r| r.2).map(|r| (r.0, r.1)).collect();
+    let mut seen: std::collections::HashSet<(usize, usize)> = std::collections::HashSet::new();
+    for (m, _) in received.iter() {
+        if !seen.insert(*m) {
             violation = Some(format!("message {:?} was forwarded twice", m));
         }
-        match sends.iter().find(|r| (r.0, r.1) == *m) {
-            Some(r) if r.2 => {}
-            _ => violation = Some(format!("message {:?} was forwarded although send() did not return true for it", m)),
+        if !accepted.contains(m) {
+            violation = Some(format!("message {:?} was forwarded although send() did not return true for it", m));
         }
     }
-    for snd in 0..nsend {
+    for snd in 0..=nsend {
         let seqs: Vec<usize> = received.iter().filter(|x| (x.0).0 == snd).map(|x| (x.0).1).collect();
         if seqs.windows(2).any(|w| w[0] >= w[1]) {
             violation = Some(format!("messages of sender {} were forwarded out of order: {:?}", snd, seqs));
@@ -614,7 +654,7 @@ fn channel_scenario(bytes: &[u8], trace: bool) {
     }
     if never_dropped {
         for r in sends.iter().filter(|r| r.2) {
-            if !received.iter().any(|x| x.0 == (r.0, r.1)) {
+            if !seen.contains(&(r.0, r.1)) {
                 violation = Some(format!(
                     "message ({}, {}) was accepted by send() and the guard was never dropped, but it was never forwarded although every poll-wake was answered (left queued without a wake-up)",
                     r.0, r.1
@@ -663,6 +703,11 @@ fn channel_scenario(bytes: &[u8], trace: bool) {
     }
     if via_handler {
         classes.push("guard-dropped-inside-another-wake-handler");
+    }
+    if burst > 256 {
+        classes.push("burst-of-more-than-256-behind-one-wake-up");
+    } else if burst > 0 {
+        classes.push("burst-behind-one-wake-up");
     }
     set_outcome(Outcome {
         violation,
@@ -717,6 +762,14 @@ fn piped_scenario(bytes: &[u8], trace: bool) {
                 6 => POp::Cancel,
                 _ => POp::Yield,
             });
+        }
+        // a run of 5-8 sends in a row (a batch large enough for the collected buffer to outgrow
+        // a fresh one), at any position of the script
+        if c.chance(70) {
+            let pos = c.pick(wscript.len() + 1);
+            for _ in 0..5 + c.pick(4) {
+                wscript.insert(pos, POp::Send);
+            }
         }
         // panic at any point of the script: position enumerated by the generator
         if c.chance(100) {
